@@ -108,13 +108,15 @@ func (h *connectHandler) NewConn(
 ) (handlerConnCloser, bool) {
 	// We need to parse metadata before entering the interceptor stack; we'll
 	// send the error to the client later on.
+	// A header may be sent as several field lines; they mean the same as one
+	// line with the values joined by commas.
 	var contentEncoding, acceptEncoding string
 	if h.Spec.StreamType == StreamTypeUnary {
 		contentEncoding = request.Header.Get(connectUnaryHeaderCompression)
-		acceptEncoding = request.Header.Get(connectUnaryHeaderAcceptCompression)
+		acceptEncoding = strings.Join(request.Header.Values(connectUnaryHeaderAcceptCompression), ",")
 	} else {
 		contentEncoding = request.Header.Get(connectStreamingHeaderCompression)
-		acceptEncoding = request.Header.Get(connectStreamingHeaderAcceptCompression)
+		acceptEncoding = strings.Join(request.Header.Values(connectStreamingHeaderAcceptCompression), ",")
 	}
 	requestCompression, responseCompression, failed := negotiateCompression(
 		h.CompressionPools,
